@@ -1,5 +1,6 @@
 //! Harness binary for the properties anchored in the `flussab` core crate
 //! (reader, writer, text scanners, combinators).
+mod c13;
 mod c15;
 mod c16;
 
@@ -15,6 +16,7 @@ fn main() {
         let v: Value = mc_core::serde_json::from_str(&text).unwrap();
         let v = if v.get("replay").is_some() { v["replay"].clone() } else { v };
         let (violated, text) = match v["property"].as_str().unwrap_or("") {
+            "C13" => c13::replay(&v),
             "C15" => c15::replay(&v),
             "C16" => c16::replay(&v),
             other => {
@@ -31,6 +33,10 @@ fn main() {
         "C15" => {
             c15::run(cli.tier, &mut report);
             c15::RULE.into()
+        }
+        "C13" => {
+            c13::run(cli.tier, &mut report);
+            c13::RULE.into()
         }
         "C16" => {
             c16::run(cli.tier, &mut report);
